@@ -1,27 +1,44 @@
 import NetProto.Model.Sleep
 import Driver.Util
-/-! C19 driver: forced schedules.  `new <n>`: a sleeper, `n` asserting goroutines; `fetch <0|1>`: the fetcher calls
-Fetch(block) and runs to its first schedule point; `fstep`: the fetcher executes the atomic operation it waits at and
-runs to the next point (the two operations inside `commitSleep` cannot be separated by the harness and are taken
-together); `call <t> assert|clear <k>`; `astep <t>`.  Output: status of the acting goroutine and of the fetcher. -/
+/-! C19 driver: forced schedules.  `new <n> <nw>`: a sleeper with wakers `0 … nw-1` attached, `n` asserting
+goroutines; `fetch <0|1>`: the fetcher calls Fetch(block) and runs to its first schedule point; `done`: the fetcher's
+goroutine calls Done(); `fstep`: that goroutine executes the atomic operation it waits at and runs to the next point
+(the two operations inside `commitSleep` cannot be separated by the harness and are taken together; so are the steps
+of Done's second loop that have no schedule point: taking a waker off the local list and crossing it off);
+`call <t> assert|clear <k>`; `astep <t>`.  Output: status of the acting goroutine and of the fetcher. -/
 namespace Driver.C19
 open Model.Sleep
 
-structure DSt where
-  s : St := {}
+structure DrvSt where
+  ds : Model.Sleep.DSt := {}
   fres : String := "idle"          -- what the fetcher last returned
   ares : List String := []         -- what each asserter last returned
   live : Bool := false
 
-instance : Inhabited DSt := ⟨{}⟩
+instance : Inhabited DrvSt := ⟨{}⟩
 
-def fStatus (d : DSt) : String :=
+/-- the base machine inside the `Done` layer -/
+abbrev DrvSt.s (d : DrvSt) : St := d.ds.base
+
+def DrvSt.setBase (d : DrvSt) (b : St) : DrvSt := { d with ds := { d.ds with base := b } }
+
+def fStatus (d : DrvSt) : String :=
+  match d.ds.d with
+  | .d1 _ _ => "at:doneLoad"
+  | .d2 _ _ => "at:doneCAS"
+  | .w1 _ => "at:addLoad"
+  | .w2 _ _ => "at:addCAS"
+  | .we1 _ => "at:enqLoad"
+  | .we2 _ _ => "at:enqCAS"
+  | .we3 _ => "at:wakeLoad"
+  | .we4 _ _ => "at:wakeCAS"
+  | _ =>
   match d.s.f with
   | .idle => d.fres
   | .n2 => "at:nextLoad" | .n3 => "at:nextPrepare" | .n4 => "at:nextRecheck" | .n5 => "at:nextAbort"
   | .park => "at:nextPark" | .cs2 => "at:commit" | .parked => "parked" | .n7 => "at:nextSwap" | .f1 _ => "at:fetchSwap"
 
-def aStatus (d : DSt) (t : Nat) : String :=
+def aStatus (d : DrvSt) (t : Nat) : String :=
   match d.s.ts[t]? with
   | none => "bad-thread"
   | some .idle => d.ares.getD t "idle"
@@ -29,27 +46,42 @@ def aStatus (d : DSt) (t : Nat) : String :=
   | some (.e1 _) => "at:enqLoad" | some (.e2 _ _) => "at:enqCAS" | some (.e3 _) => "at:wakeLoad" | some (.e4 _ _) => "at:wakeCAS"
   | some (.c1 _) => "at:clearLoad" | some (.c2 _) => "at:clearCAS"
 
-def recordEv (d : DSt) (t : Nat) (ev : Ev) : DSt :=
+def recordEv (d : DrvSt) (t : Nat) (ev : Ev) : DrvSt :=
   match ev with
+  | .doneReturned => { d with fres := "ret:done" }
+  | .addReturned => { d with fres := "ret:added" }
   | .fetched k => { d with fres := s!"ret:{k}" }
   | .fetchNone => { d with fres := "ret:none" }
   | .assertDone => { d with ares := d.ares.set t "ret:done" }
   | .clearDone b => { d with ares := d.ares.set t (if b then "ret:true" else "ret:false") }
   | .none => d
 
+/-- one model action of the fetcher's goroutine: a base step outside Done, a step of Done inside -/
+def fAct (d : DrvSt) : DrvSt :=
+  let r := if d.ds.d == .off then d.ds.act (.base .fstep) else d.ds.act .dstep
+  recordEv { d with ds := r.1 } 0 r.2
+
+/-- the steps without a schedule point: inside `commitSleep`, and in Done's second loop the hand-over of a pulled
+waker (the model's `f1` state while pulling) -/
+def silent (d : DrvSt) : Bool :=
+  d.s.f == .cs2 || (d.ds.d == .pull && (match d.s.f with | .f1 _ => true | _ => false))
+
+def settle (fuel : Nat) (d : DrvSt) : DrvSt :=
+  match fuel with
+  | 0 => d
+  | f + 1 => if silent d then settle f (fAct d) else d
+
 /-- the fetcher's step; inside `commitSleep` keep going until it returns (sleep committed, or aborted) -/
-def fstepAll (d : DSt) : DSt :=
+def fstepAll (d : DrvSt) : DrvSt :=
   let wasPark := d.s.f == .park
-  let r := d.s.fstep
-  let d1 := recordEv { d with s := r.1 } 0 r.2
+  let d1 := fAct d
+  let d1 := settle 64 d1
   if !wasPark then d1 else
-  let rec go (fuel : Nat) (d : DSt) : DSt :=
+  let rec go (fuel : Nat) (d : DrvSt) : DrvSt :=
     match fuel with
     | 0 => d
     | f + 1 =>
-      if d.s.f == .cs2 || d.s.f == .park then
-        let r := d.s.fstep
-        go f (recordEv { d with s := r.1 } 0 r.2)
+      if d.s.f == .cs2 || d.s.f == .park then go f (fAct d)
       else d
   go 8 d1
 
@@ -62,6 +94,12 @@ structure OSt where
   ops : List (Nat × String × Nat × Bool) := []   -- per asserter: thread, kind, waker, disturbed (fetch/clear of it since the call)
   busy : List Nat := []                    -- asserters currently inside a call
   fstat : String := "idle"
+  tstat : List (Nat × String) := []        -- last status seen of each asserter
+  doneRet : Bool := false                  -- Done has returned
+  doneBusy : List Nat := []                -- asserters that were inside a call when Done returned
+  nw : Nat := 0
+  detached : List Nat := []                -- wakers Done has detached and AddWaker has not attached again
+  adding : Option Nat := none              -- AddWaker in progress on this waker
 
 def kvOf (out : String) (k : String) : Option String :=
   ((out.splitOn " ").find? (·.startsWith (k ++ "="))).map fun x => (x.drop (k.length + 1)).toString
@@ -70,7 +108,8 @@ def ostep (o : OSt) (op out : String) : OSt × String :=
   let toks := op.splitOn " "
   -- 1. bookkeeping of calls
   let o : OSt := match toks with
-    | ["new", n] => { n := n.toNat?.getD 0 }
+    | ["new", n, nw] => { n := n.toNat?.getD 0, nw := nw.toNat?.getD 0 }
+    | ["add", k] => { o with adding := k.toNat? }
     | ["call", t, what, k] =>
       match t.toNat?, k.toNat? with
       | some t, some k =>
@@ -104,7 +143,9 @@ def ostep (o : OSt) (op out : String) : OSt × String :=
     | _, _ => o
   -- 3. the fetcher
   let fnew := (kvOf out "f").getD o.fstat
-  let returned := toks == ["fstep"] && fnew.startsWith "ret:"
+  let returned := toks == ["fstep"] && fnew.startsWith "ret:" && fnew != "ret:done" && fnew != "ret:added"
+  -- an assertion of a detached waker is nobody's to fetch
+  let o := { o with completed := o.completed.filter (fun k => !o.detached.contains k) }
   let (o, verdict) : OSt × String :=
     if returned then
       if fnew == "ret:none" then
@@ -125,27 +166,60 @@ def ostep (o : OSt) (op out : String) : OSt × String :=
            if bad then "bad c19.fetched-a-waker-nobody-asserted" else "ok")
         | none => (o, "bad c19.unreadable-fetch-result")
     else (o, "ok")
+  let prevF := o.fstat
   let o := { o with fstat := fnew }
+  -- 3b. Done
+  let prevT : Option String := match actor with | some t => (o.tstat.find? (·.1 == t)).map (·.2) | none => none
+  let pushing (st : String) : Bool := st == "at:enqLoad" || st == "at:enqCAS"
+  let wakingSt (st : String) : Bool := st == "at:wakeLoad" || st == "at:wakeCAS"
+  let o : OSt := match actor, tstat with
+    | some t, some st => { o with tstat := (t, st) :: o.tstat.filter (·.1 != t) }
+    | _, _ => o
+  let doneNow := fnew == "ret:done" && prevF != "ret:done" && (toks == ["fstep"] || toks == ["done"])
+  let addedNow := fnew == "ret:added" && prevF != "ret:added" && (toks == ["fstep"] || toks.head? == some "add")
+  let actorWaker : Option Nat := match actor with | some t => (o.ops.find? (·.1 == t)).map (·.2.2.1) | none => none
+  let onDetached := match actorWaker with | some k => o.detached.contains k | none => false
+  let verdict :=
+    if verdict != "ok" then verdict
+    else if doneNow && o.tstat.any (fun x => pushing x.2) then "bad c19.done-returned-while-a-push-is-in-flight"
+    else if onDetached && (match tstat with | some st => pushing st | none => false) then "bad c19.waker-queued-after-done"
+    else if onDetached && toks.head? == some "astep" && (match prevT with | some st => wakingSt st | none => false) then
+      -- a pusher that was still in its wake loop when Done returned reads (or clears) the sleeper's word afterwards
+      "bad c19.waker-touches-sleeper-after-done"
+    else verdict
+  let o := if doneNow then { o with doneRet := true, doneBusy := o.busy, detached := List.range o.nw } else o
+  let o := if addedNow then { o with detached := o.detached.filter (fun k => some k != o.adding), adding := none } else o
   -- 4. lost wake-up: the fetcher sleeps, nobody is in the middle of a call, a completed assertion is pending
   let verdict := if verdict == "ok" && fnew == "parked" && o.busy.isEmpty && !o.completed.isEmpty then "bad c19.lost-wakeup" else verdict
   let verdict := if verdict == "ok" && (fnew == "timeout" || tstat == some "timeout") then "bad c19.goroutine-stuck" else verdict
   (o, verdict)
 
 structure Both where
-  d : DSt := {}
+  d : DrvSt := {}
   o : OSt := {}
 
 instance : Inhabited Both := ⟨{}⟩
 
-def mstep (d : DSt) (line : String) : DSt × String :=
+def mstep (d : DrvSt) (line : String) : DrvSt × String :=
   match line.splitOn " " with
-  | ["new", n] =>
-    match n.toNat? with
-    | some n => ({ s := St.init n, ares := List.replicate n "idle", live := true }, "ok")
-    | none => (d, "bad-op")
+  | ["new", n, nw] =>
+    match n.toNat?, nw.toNat? with
+    | some n, some nw => ({ ds := Model.Sleep.DSt.init n nw, ares := List.replicate n "idle", live := true }, "ok")
+    | _, _ => (d, "bad-op")
   | ["fetch", b] =>
-    let d' := { d with s := d.s.startFetch (b == "1") }
+    let d' := { d with ds := (d.ds.act (.base (.fetch (b == "1")))).1 }
     (d', "f=" ++ fStatus d')
+  | ["done"] =>
+    let r := d.ds.act .done
+    let d' := settle 64 (recordEv { d with ds := r.1 } 0 r.2)
+    (d', "f=" ++ fStatus d')
+  | ["add", k] =>
+    match k.toNat? with
+    | some k =>
+      let r := d.ds.act (.add k)
+      let d' := recordEv { d with ds := r.1 } 0 r.2
+      (d', "f=" ++ fStatus d')
+    | none => (d, "bad-op")
   | ["fstep"] =>
     let d' := fstepAll d
     (d', "f=" ++ fStatus d')
@@ -153,14 +227,14 @@ def mstep (d : DSt) (line : String) : DSt × String :=
     match t.toNat?, k.toNat? with
     | some t, some k =>
       let c : Call := if what == "assert" then .assert k else .clear k
-      let d' := { d with s := d.s.startCall t c }
+      let d' := { d with ds := (d.ds.act (.base (.call t c))).1 }
       (d', s!"t={aStatus d' t} f={fStatus d'}")
     | _, _ => (d, "bad-op")
   | ["astep", t] =>
     match t.toNat? with
     | some t =>
-      let r := d.s.astep t
-      let d' := recordEv { d with s := r.1 } t r.2
+      let r := d.ds.act (.base (.astep t))
+      let d' := recordEv { d with ds := r.1 } t r.2
       (d', s!"t={aStatus d' t} f={fStatus d'}")
     | none => (d, "bad-op")
   | _ => (d, "bad-op")
